@@ -6,6 +6,7 @@ import (
 	"go/types"
 
 	"rscheck/core"
+	"rscheck/lin"
 )
 
 // onePass recognises `L: for { S...; break L }` whose body runs exactly once:
@@ -294,7 +295,33 @@ func (e *Extractor) addExit(info *types.Info, ifs *ast.IfStmt, v types.Object, b
 		return false
 	}
 	var branch func(list []ast.Stmt, nonNil types.Object) ([]ast.Stmt, bool)
+	assignsV := func(list []ast.Stmt) bool {
+		hit := false
+		for _, st := range list {
+			ast.Inspect(st, func(n ast.Node) bool {
+				if as, ok := n.(*ast.AssignStmt); ok {
+					for _, l := range as.Lhs {
+						if id, ok := ast.Unparen(l).(*ast.Ident); ok && (info.Uses[id] == v || info.Defs[id] == v) {
+							hit = true
+						}
+					}
+				}
+				return !hit
+			})
+		}
+		return hit
+	}
 	branch = func(list []ast.Stmt, nonNil types.Object) ([]ast.Stmt, bool) {
+		if nonNil != nil && nonNil == v && !assignsV(list) {
+			// the branch is taken because the flag itself is a non-nil error and leaves
+			// it alone (`if x, err = f(); err != nil { } else { ... }`): it reaches the test
+			if len(list) > 0 {
+				if _, isRet := list[len(list)-1].(*ast.ReturnStmt); isRet {
+					return list, false
+				}
+			}
+			return append(append([]ast.Stmt{}, list...), body...), true
+		}
 		if len(list) == 0 {
 			return list, false
 		}
@@ -509,4 +536,131 @@ func countDownOffset(info *types.Info, x *ast.ForStmt) (ast.Expr, int64, bool) {
 		}
 	}
 	return nil, 0, false
+}
+
+// gotoLoop recognises a loop spelled with a label and a backward goto,
+//
+//	L: if cond { BODY; goto L }
+//
+// (no init, no else, the goto is the last statement of the body and the only
+// jump to L inside it) and returns the equivalent `for cond { BODY }`.
+func gotoLoop(ls *ast.LabeledStmt) (*ast.ForStmt, bool) {
+	ifs, ok := ls.Stmt.(*ast.IfStmt)
+	if !ok || ifs.Init != nil || ifs.Else != nil || len(ifs.Body.List) < 2 {
+		return nil, false
+	}
+	label := ls.Label.Name
+	last, ok := ifs.Body.List[len(ifs.Body.List)-1].(*ast.BranchStmt)
+	if !ok || last.Tok != token.GOTO || last.Label == nil || last.Label.Name != label {
+		return nil, false
+	}
+	body := ifs.Body.List[:len(ifs.Body.List)-1]
+	other := false
+	for _, st := range body {
+		ast.Inspect(st, func(n ast.Node) bool {
+			if b, ok := n.(*ast.BranchStmt); ok && b.Label != nil && b.Label.Name == label {
+				other = true
+			}
+			// an unlabelled break/continue directly in the body would now bind to the new loop
+			if b, ok := n.(*ast.BranchStmt); ok && b.Label == nil && (b.Tok == token.BREAK || b.Tok == token.CONTINUE) {
+				other = true // conservative: also inside nested loops
+			}
+			return !other
+		})
+	}
+	if other {
+		return nil, false
+	}
+	return &ast.ForStmt{For: ls.Pos(), Cond: ifs.Cond, Body: &ast.BlockStmt{Lbrace: ifs.Body.Lbrace, List: body, Rbrace: ifs.Body.Rbrace}}, true
+}
+
+// stepsCounter: lhs is (a conversion of) the variable the loop's post
+// statement increments.
+func stepsCounter(info *types.Info, x *ast.ForStmt, lhs ast.Expr) bool {
+	inc, ok := x.Post.(*ast.IncDecStmt)
+	if !ok || inc.Tok != token.INC {
+		return true // other post statements are judged by the recognisers that follow
+	}
+	ctr, ok := ast.Unparen(inc.X).(*ast.Ident)
+	if !ok {
+		return false
+	}
+	for {
+		lhs = ast.Unparen(lhs)
+		c, ok := lhs.(*ast.CallExpr)
+		if ok && len(c.Args) == 1 {
+			if tv, has := info.Types[c.Fun]; has && tv.IsType() {
+				lhs = c.Args[0]
+				continue
+			}
+		}
+		break
+	}
+	id, ok := lhs.(*ast.Ident)
+	return ok && info.Uses[id] == info.Uses[ctr]
+}
+
+// linCount reads the loop test as a linear comparison of the stepped variable
+// with one other quantity, `ctr + k < bound` (also <=, !=, and every equivalent
+// spelling): starting from zero the loop runs bound-k (bound-k+1 for <=) times.
+func linCount(info *types.Info, x *ast.ForStmt) (bound ast.Expr, off int64, ok bool) {
+	var ctr *ast.Ident
+	switch p := x.Post.(type) {
+	case *ast.IncDecStmt:
+		if p.Tok == token.INC {
+			ctr, _ = ast.Unparen(p.X).(*ast.Ident)
+		}
+	case *ast.AssignStmt:
+		if len(p.Lhs) == 1 && len(p.Rhs) == 1 && p.Tok == token.ADD_ASSIGN {
+			if v, isC := core.IntConst(info, p.Rhs[0]); isC && v == 1 {
+				ctr, _ = ast.Unparen(p.Lhs[0]).(*ast.Ident)
+			}
+		}
+	}
+	if ctr == nil || x.Cond == nil {
+		return nil, 0, false
+	}
+	cmp, isCmp := lin.CmpOf(info, x.Cond, true)
+	if !isCmp {
+		return nil, 0, false
+	}
+	ck := lin.Key(info, ctr)
+	f := cmp.F
+	if cmp.Op == token.NEQ && f.Coef[ck] == -1 {
+		f = f.Neg()
+	}
+	if f.Coef[ck] != 1 || len(f.Coef) != 2 {
+		return nil, 0, false
+	}
+	bk := ""
+	for k, v := range f.Coef {
+		if k != ck {
+			if v != -1 {
+				return nil, 0, false
+			}
+			bk = k
+		}
+	}
+	switch cmp.Op {
+	case token.LSS, token.NEQ:
+		off = -f.Const
+	case token.LEQ:
+		off = -f.Const + 1
+	default:
+		return nil, 0, false
+	}
+	// the sub-expression of the test that is the bound
+	ast.Inspect(x.Cond, func(n ast.Node) bool {
+		if e, isExpr := n.(ast.Expr); isExpr && bound == nil {
+			switch e.(type) {
+			case *ast.Ident, *ast.SelectorExpr, *ast.CallExpr, *ast.IndexExpr:
+				if lin.Key(info, e) == bk {
+					bound = e
+					return false
+				}
+			}
+		}
+		return bound == nil
+	})
+	return bound, off, bound != nil
 }
